@@ -1173,8 +1173,9 @@ def _killer_pause_guard(vc):
 
 
 # =============================================================================================== H7
-@harness('H7', targets='kopf._core.reactor.processing.process_spawning_cause', props=['C09', 'C10'],
-         clauses=['deletion_stops_all', 'spawn_match_pause_order', 'excludes_forever_stopped', 'body_before_spawn',
+@harness('H7', targets='kopf._core.reactor.processing.process_spawning_cause', props=['C09', 'C10', 'C11'],
+         prop_clauses={'C11': ['spawn_match_pause_order', 'excludes_forever_stopped', 'no_suspension_between_selection_and_spawning']},
+         clauses=['no_suspension_between_selection_and_spawning', 'deletion_stops_all', 'spawn_match_pause_order', 'excludes_forever_stopped', 'body_before_spawn',
                   'delays_passed_on', 'idle_reset_iff_reset'],
          canaries=['canary.always_spawns', 'canary.never_resets'],
          trusted=['finalizers.is_deletion_ongoing by contract K2 (a boolean function of the body)',
@@ -1190,6 +1191,10 @@ def H7(vc):
                                handlers just selected, pause with the operator's pause toggle;
       excludes_forever_stopped the handlers are selected with excluded = memory.forever_stopped (self-exited daemons
                                are never started again);
+      no_suspension_between_selection_and_spawning
+                               the selection is not stale when it is used: no suspension point lies between get_handlers
+                               and the call of spawn_daemons (a daemon that ends for good meanwhile would be in the
+                               selection, no longer in running_daemons, and be started again: C11 "ends it without retry");
       body_before_spawn        when spawn_daemons is called the memory holds a live body (its precondition);
       delays_passed_on         all delays of the callees are returned (C06: the finalizer stays while daemons exit);
       idle_reset_iff_reset     idle_reset_time := loop time of this call iff cause.reset, untouched otherwise (C10).
@@ -1229,6 +1234,7 @@ def H7(vc):
         return deleting
 
     def on_suspend(site):
+        vc.emit('suspended', site)
         clock.advance()
 
     ld = vc.load('kopf._core.reactor.processing', 'process_spawning_cause', stubs={
@@ -1248,6 +1254,12 @@ def H7(vc):
     vc.ensure('deletion_stops_all', Implies(deleting, names == ['stop_daemons']))
     vc.ensure('spawn_match_pause_order', Implies(Not(deleting), names == ['get_handlers', 'spawn_daemons', 'match_daemons', 'pause_daemons']))
     vc.canary('canary.always_spawns', 'spawn_daemons' in names)
+    marks = [e[0] for e in tr if e[0] in ('get_handlers', 'spawn_daemons', 'suspended')]
+    if 'get_handlers' in marks and 'spawn_daemons' in marks:
+        vc.ensure('no_suspension_between_selection_and_spawning',
+                  'suspended' not in marks[marks.index('get_handlers'):marks.index('spawn_daemons')])
+    else:
+        vc.ensure('no_suspension_between_selection_and_spawning', 'spawn_daemons' not in marks)
     total = 0
     for n in ('stop_daemons', 'spawn_daemons', 'match_daemons', 'pause_daemons'):
         for e in tr:
